@@ -17,6 +17,8 @@ package handlers
 //@   assigns g_dispStr, g_printedStr, *h.done
 //@   effect g_dispStr == old(g_dispStr) + message + "\x1e"
 //@   ensures [printed-unless-hidden] g_printedStr == old(g_printedStr) + ite(len(message) > 0 && message[0] == 46, "", message)
+//@ func (*baseHandler).Shutdown
+//@   assigns *h.done
 //@ func (*baseHandler).handleHiddenMessage
 //@   assigns *h.done
 //@ func (*baseHandler).Write
